@@ -10,6 +10,7 @@ pub fn case_json(prop: &str, verif_seed: u64, idx: u64) -> Value {
     match info.engine {
         Engine::Sql | Engine::Crash => serde_json::to_value(run::gen_sql_case(prop, verif_seed, idx)).unwrap(),
         Engine::Wal => serde_json::to_value(crate::walsim::gen_case(verif_seed, idx)).unwrap(),
+        Engine::Wire if served_index(idx) => serde_json::to_value(run::gen_sql_case(prop, verif_seed, idx)).unwrap(),
         Engine::Wire => serde_json::to_value(crate::wiresim::gen_case(verif_seed, idx)).unwrap(),
         Engine::Thread => serde_json::to_value(crate::threadsim::gen_case(verif_seed, idx)).unwrap(),
         Engine::Btree if prop == "C11" && idx % 2 == 1 => serde_json::to_value(run::gen_sql_case(prop, verif_seed, idx)).unwrap(),
@@ -18,11 +19,18 @@ pub fn case_json(prop: &str, verif_seed: u64, idx: u64) -> Value {
     }
 }
 
+/// C20: every eighth run index is an E1 history driven through the server's request loop and the
+/// wire protocol (E5b); the others are stream scenarios (E5).
+pub fn served_index(idx: u64) -> bool {
+    idx % 8 == 7
+}
+
 pub fn sample_json(prop: &str, verif_seed: u64, idx: u64) -> Value {
     let info = props::prop(prop).expect("property");
     match info.engine {
         Engine::Sql | Engine::Crash => run::sample_of(&run::gen_sql_case(prop, verif_seed, idx)),
         Engine::Wal => crate::walsim::sample_of(&crate::walsim::gen_case(verif_seed, idx)),
+        Engine::Wire if served_index(idx) => run::sample_of(&run::gen_sql_case(prop, verif_seed, idx)),
         Engine::Wire => crate::wiresim::sample_of(&crate::wiresim::gen_case(verif_seed, idx)),
         Engine::Thread => crate::threadsim::sample_of(&crate::threadsim::gen_case(verif_seed, idx)),
         Engine::Btree if prop == "C11" && idx % 2 == 1 => run::sample_of(&run::gen_sql_case(prop, verif_seed, idx)),
@@ -34,7 +42,7 @@ pub fn sample_json(prop: &str, verif_seed: u64, idx: u64) -> Value {
 pub fn guards_for(prop: &str) -> Vec<String> {
     let info = props::prop(prop).expect("property");
     match info.engine {
-        Engine::Sql | Engine::Crash | Engine::Btree => {
+        Engine::Sql | Engine::Crash | Engine::Btree | Engine::Wire => {
             if info.engine == Engine::Btree && prop != "C11" {
                 return vec![];
             }
@@ -51,7 +59,7 @@ pub fn stubs_for(e: Engine) -> Vec<&'static str> {
         Engine::Crash => vec!["process crash (on-disk image rebuilt from the recorded I/O prefix)"],
         Engine::Wal | Engine::Btree => vec!["everything above the storage component"],
         Engine::Thread => vec!["OS scheduler (baton scheduler at every lock / latch / queue point)", "idle poll and wall clock"],
-        Engine::Wire => vec!["TCP socket (simulated byte stream)"],
+        Engine::Wire => vec!["TCP socket (simulated byte stream)", "the server's accept loop and the TcpStream shell of its client loop (the loop body - receive, process_request, send - is the real code, reached through the guarded export in axmos_server.rs)", "client concurrency in served histories (one driver thread issues every request)"],
     }
 }
 
@@ -85,6 +93,15 @@ pub fn run_one(prop: &str, verif_seed: u64, idx: u64) -> RunResult {
             r
         }
         Engine::Wal => crate::walsim::run_case(&crate::walsim::gen_case(verif_seed, idx), idx),
+        Engine::Wire if served_index(idx) => {
+            let case = run::gen_sql_case(prop, verif_seed, idx);
+            let mut r = run::run_sql_case(&case, idx);
+            if let Some((i, g)) = run::audit_generated(&case) {
+                r.counters.insert(format!("generator_tripped_guard:{g}"), 1);
+                r.hazards.push(format!("generated history trips guard {g} at event {i}"));
+            }
+            r
+        }
         Engine::Wire => crate::wiresim::run_case(&crate::wiresim::gen_case(verif_seed, idx), idx),
         Engine::Thread => crate::threadsim::run_case(&crate::threadsim::gen_case(verif_seed, idx), idx),
         Engine::Btree if prop == "C11" && idx % 2 == 1 => {
